@@ -336,22 +336,27 @@ def mixed_array(u1, u2, u3):
     return ok
 
 
-def default_tmax(u1, u3, form):
+def default_tmax(u1, u3, form, g=0):
     """t_max left at its default is the LAST sample time as a physical quantity, whatever units the sample times were written in
     (list of quantities, quantity array with its own units, {"value", "units"} dictionary), in the script, in its dictionary
     and in what reaches the engine"""
     from strengths.rdscript import rdscript_to_dict, rdscript_from_dict
     from strengths.rdsystem import rdsystem_to_dict
     k1, k3 = KEYS[u1 % 11], KEYS[u3 % 11]
+    if g:
+        from harness.c12lib import mk_system
+        _bs = mk_system(0, 1, 0)             # a graph space: the other set-up routine of the wrapper
+    else:
+        _bs = base_system()
     tu = Units(SYS[k1], UnitsDimensions(0, 1, 0))
     last_si = 3.0 * F(k1, (0, 1, 0))
     step = UnitValue(0.25 * last_si, "s")          # a time step that is explicit too, so that only t_sample / t_max vary
     if form == 0:
-        sc = RDScript(base_system(), [UnitValue(0.0, tu), UnitValue(1.5, tu), UnitValue(3.0, tu)], time_step=step, units_system=SYS[k3])
+        sc = RDScript(_bs, [UnitValue(0.0, tu), UnitValue(1.5, tu), UnitValue(3.0, tu)], time_step=step, units_system=SYS[k3])
     elif form == 1:
-        sc = RDScript(base_system(), UnitArray([0.0, 1.5, 3.0], tu), time_step=step, units_system=SYS[k3])
+        sc = RDScript(_bs, UnitArray([0.0, 1.5, 3.0], tu), time_step=step, units_system=SYS[k3])
     else:
-        sc = rdscript_from_dict({"system": rdsystem_to_dict(base_system()), "t_sample": {"value": [0.0, 1.5, 3.0], "units": str(tu)}, "time_step": str(step),
+        sc = rdscript_from_dict({"system": rdsystem_to_dict(_bs), "t_sample": {"value": [0.0, 1.5, 3.0], "units": str(tu)}, "time_step": str(step),
                                  "units": {"space": SYS[k3]["space"], "time": SYS[k3]["time"], "quantity": SYS[k3]["quantity"]}})
     if not close(si(sc.t_max), last_si):
         return False
